@@ -51,6 +51,42 @@ Qed.
 Lemma no_clients_nil g : no_clients g = true <-> g_clients g = [].
 Proof. unfold no_clients. destruct (g_clients g); split; intros; congruence. Qed.
 
+(* ------------------------------------------------------------ TOn *)
+
+Definition ton_run (t : table) (k : nat) (s : op) : table * tres :=
+  match nth_error (t_objs t) k with
+  | None => (t, TNone)
+  | Some g =>
+      let r := step g s in
+      (mkTable (upd k (fst r) (t_objs t)) (t_cur t) (t_file t) (t_dirty t), TOut (snd r))
+  end.
+
+Lemma is_cur_true t k : is_cur t k = true <-> t_cur t = Some k.
+Proof.
+  unfold is_cur. destruct (t_cur t) as [k'|]; [|split; discriminate].
+  rewrite Nat.eqb_eq. split; intros H; [subst; reflexivity | inversion H; reflexivity].
+Qed.
+
+(* a step on an object either leaves the table as it is, or is [ton_run] of
+   a step that is not an Add; since 35083b1 an entry step only runs on the
+   registered object *)
+Lemma tstep_TOn_cases fixed t k s :
+  fst (tstep_gen fixed t (TOn k s)) = t \/
+  (tstep_gen fixed t (TOn k s) = ton_run t k s /\ (forall r, s <> SAdd r) /\
+   (fixed = true -> forall now j, s = SAddClient now j -> t_cur t = Some k)).
+Proof.
+  destruct s as [r|now j|id uid|b m]; cbn [tstep_gen].
+  - left. reflexivity.
+  - destruct fixed; cbn [andb].
+    + destruct (is_cur t k) eqn:E; cbn [negb].
+      * right. split; [reflexivity|]. split; [intros; discriminate|].
+        intros _ ? ? _. apply is_cur_true, E.
+      * left. reflexivity.
+    + right. split; [reflexivity|]. split; [intros; discriminate | discriminate].
+  - right. split; [reflexivity|]. split; [intros; discriminate | intros _ ? ? H; discriminate H].
+  - right. split; [reflexivity|]. split; [intros; discriminate | intros _ ? ? H; discriminate H].
+Qed.
+
 (* ------------------------------------------------------------ texec *)
 
 Lemma texec_step t l pre s r post :
@@ -82,29 +118,38 @@ Qed.
 (* ------------------------------------------------------------ the registered
    object is never replaced while it has members *)
 
-Lemma tstep_keeps_members t s k g :
+Lemma ton_run_keeps_members t j s k g :
+  t_cur t = Some k -> nth_error (t_objs t) k = Some g ->
+  t_cur (fst (ton_run t j s)) = Some k /\
+  exists g', nth_error (t_objs (fst (ton_run t j s))) k = Some g'.
+Proof.
+  intros Hc Hn. unfold ton_run.
+  destruct (nth_error (t_objs t) j) as [gj|] eqn:Ej; cbn [fst t_cur t_objs].
+  - split; [exact Hc|]. destruct (Nat.eq_dec k j) as [->|Hkj].
+    + eexists. eapply nth_error_upd_same, Ej.
+    + exists g. rewrite nth_error_upd_other by exact Hkj. exact Hn.
+  - split; [exact Hc | exists g; exact Hn].
+Qed.
+
+Lemma tstep_keeps_members fixed t s k g :
   t_cur t = Some k -> nth_error (t_objs t) k = Some g -> g_clients g <> [] ->
-  t_cur (fst (tstep t s)) = Some k /\
-  exists g', nth_error (t_objs (fst (tstep t s))) k = Some g'.
+  t_cur (fst (tstep_gen fixed t s)) = Some k /\
+  exists g', nth_error (t_objs (fst (tstep_gen fixed t s))) k = Some g'.
 Proof.
   intros Hc Hn Hm.
   assert (Hnc : no_clients g = false).
   { destruct (no_clients g) eqn:E; [apply no_clients_nil in E; contradiction | reflexivity]. }
-  destruct s as [f| |j s|]; cbn [tstep].
-  - cbn [fst t_cur t_objs]. split; [first [exact Hc | reflexivity] | exists g; exact Hn].
-  - rewrite Hc, Hn. destruct (t_dirty t).
+  destruct s as [f| |j s|].
+  - cbn [tstep_gen fst t_cur t_objs]. split; [exact Hc | exists g; exact Hn].
+  - cbn [tstep_gen]. rewrite Hc, Hn. destruct (t_dirty t).
     + destruct (t_file t).
-      * cbn [fst t_cur t_objs]. split; [first [exact Hc | reflexivity]|]. eexists. eapply nth_error_upd_same, Hn.
-      * rewrite Hnc. cbn [fst]. split; [first [exact Hc | reflexivity] | exists g; exact Hn].
-    + cbn [fst t_cur t_objs]. split; [first [exact Hc | reflexivity]|]. eexists. eapply nth_error_upd_same, Hn.
-  - destruct s as [r|now jn|id uid|b m]; try (cbn [fst]; split; [first [exact Hc | reflexivity] | exists g; exact Hn]);
-      (destruct (nth_error (t_objs t) j) as [gj|] eqn:Ej;
-       [|cbn [fst]; split; [first [exact Hc | reflexivity] | exists g; exact Hn]]);
-      cbn [fst t_cur t_objs]; (split; [first [exact Hc | reflexivity]|]);
-      (destruct (Nat.eq_dec k j) as [->|Hkj];
-       [eexists; eapply nth_error_upd_same, Ej
-       | exists g; rewrite nth_error_upd_other by exact Hkj; exact Hn]).
-  - rewrite Hc, Hn, Hnc. cbn [fst]. split; [first [exact Hc | reflexivity] | exists g; exact Hn].
+      * cbn [fst t_cur t_objs]. split; [reflexivity|]. eexists. eapply nth_error_upd_same, Hn.
+      * rewrite Hnc. cbn [fst]. split; [exact Hc | exists g; exact Hn].
+    + cbn [fst t_cur t_objs]. split; [reflexivity|]. eexists. eapply nth_error_upd_same, Hn.
+  - destruct (tstep_TOn_cases fixed t j s) as [E|(E & _)].
+    + rewrite E. split; [exact Hc | exists g; exact Hn].
+    + rewrite E. apply ton_run_keeps_members with (g := g); assumption.
+  - cbn [tstep_gen]. rewrite Hc, Hn, Hnc. cbn [fst]. split; [exact Hc | exists g; exact Hn].
 Qed.
 
 (* ------------------------------------------------------------ every object,
@@ -117,15 +162,15 @@ Proof.
   intros (d & l & ->). exists d, (l ++ [s]). rewrite run_app. reflexivity.
 Qed.
 
-Lemma tstep_histories t s :
-  Forall is_history (t_objs t) -> Forall is_history (t_objs (fst (tstep t s))).
+Lemma tstep_histories fixed t s :
+  Forall is_history (t_objs t) -> Forall is_history (t_objs (fst (tstep_gen fixed t s))).
 Proof.
   intros H.
   assert (Hnth : forall k g, nth_error (t_objs t) k = Some g -> is_history g).
   { intros k g E. rewrite Forall_forall in H. apply H. eapply nth_error_In, E. }
-  destruct s as [f| |j s|]; cbn [tstep].
+  destruct s as [f| |j s|].
   - exact H.
-  - destruct (t_cur t) as [k|].
+  - cbn [tstep_gen]. destruct (t_cur t) as [k|].
     + destruct (nth_error (t_objs t) k) as [g|] eqn:E; [|exact H].
       destruct (t_dirty t).
       * destruct (t_file t) as [d|].
@@ -137,11 +182,10 @@ Proof.
     + destruct (t_file t) as [d|]; [|exact H].
       cbn [fst t_objs]. apply Forall_app. split; [exact H|].
       constructor; [|constructor]. exists d, []. reflexivity.
-  - destruct s as [r|now jn|id uid|b m]; try exact H;
-      (destruct (nth_error (t_objs t) j) as [g|] eqn:E; [|exact H]);
-      cbn [fst t_objs]; (apply Forall_upd; [exact H|]);
-      apply is_history_step; eapply Hnth, E.
-  - destruct (t_cur t) as [k|]; [|exact H].
+  - destruct (tstep_TOn_cases fixed t j s) as [E|(E & _)]; rewrite E; [exact H|].
+    unfold ton_run. destruct (nth_error (t_objs t) j) as [g|] eqn:Ej; [|exact H].
+    cbn [fst t_objs]. apply Forall_upd; [exact H|]. apply is_history_step. eapply Hnth, Ej.
+  - cbn [tstep_gen]. destruct (t_cur t) as [k|]; [|exact H].
     destruct (nth_error (t_objs t) k) as [g|]; [|exact H].
     destruct (no_clients g); exact H.
 Qed.
@@ -150,7 +194,7 @@ Lemma trun_histories l t :
   Forall is_history (t_objs t) -> Forall is_history (t_objs (trun t l)).
 Proof.
   revert t. induction l as [|s l IH]; intros t H; cbn [trun]; [exact H|].
-  apply IH, tstep_histories, H.
+  apply IH. apply (tstep_histories true), H.
 Qed.
 
 Lemma objects_are_histories l k g :
@@ -161,37 +205,29 @@ Proof.
 Qed.
 
 (* ------------------------------------------------------------ the rules hold
-   for the NAME when every admission step runs on the registered object *)
+   for the NAME: members exist only in the registered object *)
 
-Definition admissions_on_current (t : table) (l : list top) : Prop :=
-  forall pre k now j r post,
-    In (pre, TOn k (SAddClient now j), r, post) (texec t l) -> t_cur pre = Some k.
-
-(* members exist only in the registered object *)
 Definition TI (t : table) : Prop :=
   (forall k, t_cur t = Some k -> (k < length (t_objs t))%nat) /\
   (forall j g, nth_error (t_objs t) j = Some g -> t_cur t <> Some j -> g_clients g = []).
 
 Lemma step_keeps_empty g s :
-  g_clients g = [] -> (forall now j, s <> SAddClient now j) ->
+  g_clients g = [] -> (forall now j, s <> SAddClient now j) -> (forall r, s <> SAdd r) ->
   g_clients (fst (step g s)) = [].
 Proof.
-  intros He Hs. destruct s as [r|now j|id uid|b m].
-  - cbn [step]. rewrite do_add_clients. exact He.
+  intros He Hs Ha. destruct s as [r|now j|id uid|b m].
+  - exfalso. apply (Ha r). reflexivity.
   - exfalso. apply (Hs now j). reflexivity.
   - cbn [step]. unfold del_client. rewrite He. cbn [lookup fst]. exact He.
   - cbn [step]. unfold set_locked. cbn [fst g_clients]. exact He.
 Qed.
 
-Lemma tstep_TI t s :
-  TI t ->
-  (forall k now j, s = TOn k (SAddClient now j) -> t_cur t = Some k) ->
-  TI (fst (tstep t s)).
+Lemma tstep_TI t s : TI t -> TI (fst (tstep t s)).
 Proof.
-  intros [Hb He] Hs. assert (Hsame : TI t) by (split; assumption).
-  destruct s as [f| |k s|]; cbn [tstep].
-  - split; cbn [fst t_cur t_objs]; assumption.
-  - destruct (t_cur t) as [k|] eqn:Hc.
+  intros [Hb He]. assert (Hsame : TI t) by (split; assumption).
+  unfold tstep. destruct s as [f| |k s|].
+  - cbn [tstep_gen]. split; cbn [fst t_cur t_objs]; assumption.
+  - cbn [tstep_gen]. destruct (t_cur t) as [k|] eqn:Hc.
     + destruct (nth_error (t_objs t) k) as [g|] eqn:E; [|cbn [fst]; exact Hsame].
       assert (Hupd : forall x, TI (mkTable (upd k x (t_objs t)) (Some k) (t_file t) false)).
       { intros x. split; cbn [t_cur t_objs].
@@ -217,16 +253,15 @@ Proof.
            destruct (j - length (t_objs t))%nat as [|n] eqn:En.
            ++ apply Hne. f_equal. lia.
            ++ cbn [nth_error] in Hj. destruct n; discriminate.
-  - destruct s as [r|now j|id uid|b m]; [exact Hsame| | |];
-      (destruct (nth_error (t_objs t) k) as [g|] eqn:E; [|exact Hsame]);
-      cbn [fst]; (split; cbn [t_cur t_objs];
-      [intros k' Hk'; rewrite upd_length; apply Hb, Hk'|]);
-      intros j0 g0 Hn Hj; apply nth_error_upd_inv in Hn;
-      (destruct Hn as [[-> ->]|[Hjk Hn]]; [|apply (He j0 g0 Hn Hj)]).
-    + exfalso. apply Hj. apply (Hs k now j). reflexivity.
-    + apply step_keeps_empty; [apply (He k g E Hj) | intros; discriminate].
-    + apply step_keeps_empty; [apply (He k g E Hj) | intros; discriminate].
-  - destruct (t_cur t) as [k|] eqn:Hc; [|cbn [fst]; exact Hsame].
+  - destruct (tstep_TOn_cases true t k s) as [E|(E & Hadd & Hcur)]; rewrite E; [exact Hsame|].
+    unfold ton_run. destruct (nth_error (t_objs t) k) as [g|] eqn:Ek; [|exact Hsame].
+    cbn [fst]. split; cbn [t_cur t_objs].
+    + intros k' Hk'. rewrite upd_length. apply Hb, Hk'.
+    + intros j0 g0 Hn Hj. apply nth_error_upd_inv in Hn.
+      destruct Hn as [[-> ->]|[Hjk Hn]]; [|apply (He j0 g0 Hn Hj)].
+      apply step_keeps_empty; [apply (He k g Ek Hj) | | exact Hadd].
+      intros now j ->. apply Hj. apply (Hcur eq_refl now j eq_refl).
+  - cbn [tstep_gen]. destruct (t_cur t) as [k|] eqn:Hc; [|cbn [fst]; exact Hsame].
     destruct (nth_error (t_objs t) k) as [g|] eqn:E; [|cbn [fst]; exact Hsame].
     destruct (no_clients g) eqn:Hn; [|cbn [fst]; exact Hsame].
     cbn [fst]. split; cbn [t_cur t_objs]; [discriminate|].
@@ -243,60 +278,48 @@ Proof.
 Qed.
 
 Lemma members_only_in_registered l :
-  admissions_on_current tinit l ->
   TI (trun tinit l) /\
   forall pre s r post, In (pre, s, r, post) (texec tinit l) -> TI pre /\ TI post.
 Proof.
-  intros Hc. apply texec_invariant; [apply tinit_TI|].
+  apply texec_invariant; [apply tinit_TI|].
   intros pre s r post Hin Hpre.
   pose proof (texec_step _ _ _ _ _ _ Hin) as Hst.
   replace post with (fst (tstep pre s)) by (rewrite Hst; reflexivity).
-  apply tstep_TI; [exact Hpre|].
-  intros k now j ->. apply (Hc pre k now j r post Hin).
+  apply tstep_TI. exact Hpre.
 Qed.
 
-(* ------------------------------------------------------------ without that
-   hypothesis the rules do NOT hold for the name: a joiner whose Add returned
-   an object that is dropped (empty, description unreadable) before its
-   admission step becomes the member of an unregistered object; the next
-   join creates a second object *)
+(* an entry step never runs on an object that is not registered *)
+Lemma no_entry_into_dropped_object t k now j :
+  t_cur t <> Some k -> tstep t (TOn k (SAddClient now j)) = (t, TRetry).
+Proof.
+  intros H. unfold tstep. cbn [tstep_gen andb].
+  destruct (is_cur t k) eqn:E; [apply is_cur_true in E; contradiction | reflexivity].
+Qed.
+
+(* ------------------------------------------------------------ regression of
+   F30: before 35083b1 a joiner whose Add returned an object that was dropped
+   (empty, description unreadable) before its entry step became the member of
+   an unregistered object, and the next join created a second object *)
 Definition orphan_schedule : list top :=
   let d := demo_desc 1 false false in
   [TWrite (Some d); TAdd;                            (* U: Add -> object 0 *)
    TWrite None; TAdd;                                (* X: Add fails, object 0 (empty) dropped *)
-   TOn 0 (SAddClient 0 (mkJoiner 1 [117] false false 2));  (* U: accepted to object 0 *)
+   TOn 0 (SAddClient 0 (mkJoiner 1 [117] false false 2));  (* U: entry step on object 0 *)
    TWrite (Some d); TAdd;                            (* V: Add -> object 1 *)
-   TOn 1 (SAddClient 0 (mkJoiner 2 [117] false false 2))]. (* V: accepted, same id, max-clients 1 *)
+   TOn 1 (SAddClient 0 (mkJoiner 2 [117] false false 2))]. (* V: same id, max-clients 1 *)
 
-Lemma orphan_witness :
-  let t := trun tinit orphan_schedule in
+Lemma orphan_witness_prefix :
+  let t := trun_prefix tinit orphan_schedule in
   t_cur t = Some 1%nat /\
   map (fun g => ids (g_clients g)) (t_objs t) = [[[117]]; [[117]]] /\
-  map (fun g => d_max_clients (g_desc g)) (t_objs t) = [1; 1] /\
-  map (fun x => match snd (fst x) with TOut o => Some (o_res o) | _ => None end)
-      (texec tinit orphan_schedule) =
-    [None; None; None; None; Some RAccepted; None; None; Some RAccepted].
+  map (fun g => d_max_clients (g_desc g)) (t_objs t) = [1; 1].
 Proof. vm_compute. repeat split; reflexivity. Qed.
 
-(* executable form of [admissions_on_current], for concrete schedules *)
-Fixpoint on_current_b (t : table) (l : list top) : bool :=
-  match l with
-  | [] => true
-  | s :: l' =>
-      match s with
-      | TOn k (SAddClient _ _) =>
-          match t_cur t with Some k' => Nat.eqb k k' | None => false end
-      | _ => true
-      end && on_current_b (fst (tstep t s)) l'
-  end.
-
-Lemma on_current_b_sound l t : on_current_b t l = true -> admissions_on_current t l.
-Proof.
-  revert t. induction l as [|s l IH]; intros t H; unfold admissions_on_current; cbn [texec].
-  - intros ? ? ? ? ? ? [].
-  - cbn [on_current_b] in H. apply andb_true_iff in H. destruct H as [H1 H2].
-    intros pre k now j r post [Hin|Hin].
-    + inversion Hin; subst. destruct (t_cur pre) as [k'|]; [|discriminate].
-      apply Nat.eqb_eq in H1. subst. reflexivity.
-    + exact (IH _ H2 pre k now j r post Hin).
-Qed.
+(* the same schedule on the current code: U has to look the name up again *)
+Lemma orphan_schedule_now :
+  let t := trun tinit orphan_schedule in
+  map (fun g => ids (g_clients g)) (t_objs t) = [[]; [[117]]] /\
+  map (fun x => snd (fst x)) (texec tinit orphan_schedule) =
+    [TWritten; TAddOk 0 []; TWritten; TAddErr; TRetry; TWritten; TAddOk 1 [];
+     TOut (mkOut RAccepted [EJoined 2 KJoin; EPush 2 true [117]])].
+Proof. vm_compute. repeat split; reflexivity. Qed.
